@@ -103,6 +103,7 @@ def prog_lists(ctx, cfg, simulate=None):
 def run(ctx):
     q = ctx.quick
     vlib.mc(ctx, "MCRepo.tla", "MCRepoAppendOnly.cfg", workers=8, timeout=1200)
+    vlib.mc(ctx, "RepairIndex.tla", "MCRepairIndexDry.cfg", workers=4, timeout=600)      # DryRunInert for repair-index
     rng = random.Random(ctx.seed * 32452843 + 15)
     p2 = prog_lists(ctx, "Prog2.cfg")
     p4 = [p for p in prog_lists(ctx, "Prog4.cfg", simulate=400 if q else 6000) if len(p) >= 3]
